@@ -82,6 +82,9 @@ fn one_pass(
         if w.containers.iter().any(|c| c.slices.iter().any(|s| s.ref_id == -2)) {
             ch.tag("multi-reference slice");
         }
+        if walk::loose_multi_slices(&w, recs) > 0 {
+            ch.tag("multi-reference slice header over single-reference content (legal, not judged)");
+        }
         if w.containers.iter().any(|c| c.slices.iter().any(|s| s.ref_id == -1)) {
             ch.tag("unmapped slice");
         }
@@ -225,6 +228,14 @@ fn run_case(ch: &Chooser, env: &Env, which: usize, st: &stream::Stream, cfg: &Wr
             Err(f) => fails.push(f),
         }
     }
+    // attribution: a stream that also fails under the default map (same layout and options) is a
+    // default-path finding, not the encoder's
+    if cfg.target != Target::DefaultMap {
+        let dcfg = WriteCfg { target: Target::DefaultMap, enc: Enc::Gzip(6), ..cfg.clone() };
+        if let Err((f, e, o)) = one_pass(ch, env, st, &dcfg, false) {
+            return Err(Violation::new(f, describe(), e, format!("{o}   [fails identically with the default encoder map]")));
+        }
+    }
     let classes: std::collections::BTreeSet<&str> = fails.iter().map(|f| f.0.as_str()).collect();
     if passes > 0 || classes.len() > 1 {
         ch.tag("repeated writes of one case gave different verdicts (hash order dependent)");
@@ -342,7 +353,10 @@ fn main() {
         } else {
             if want("default_map_k2") {
                 ctx.harness(Config::new("default_map_k2", 2), |ch| {
-                    body_default(ch, &env, DevSet::ALL, &[0, 1, 2, 3, 4], &[None, Some(2)], &[(true, true)])
+                    body_default(ch, &env, DevSet::ALL, &[0, 1, 3, 4], &[None, Some(2)], &[(true, true)])
+                });
+                ctx.harness(Config::new("default_map_k2_pairs", 2), |ch| {
+                    body_default(ch, &env, DevSet::ALL, &[2], &[None], &[(true, true)])
                 });
             }
             if want("default_map_k1_all_options") {
@@ -351,19 +365,32 @@ fn main() {
                 });
             }
             if want("default_map_k3_single") {
-                // k = 3 without the tag / name alphabets (they do not interact with the record layout)
-                let core = DevSet { tags: false, naming: false, ..DevSet::ALL };
+                // k = 3 over the fields that shape the record layout (no tag / name / flag alphabets)
+                let core = DevSet { tags: false, naming: false, flags: false, ..DevSet::ALL };
                 ctx.harness(Config::new("default_map_k3_single", 3), |ch| body_default(ch, &env, core, &[0], &[None], &[(true, true)]));
             }
             if want("encoders_all_flag_sets_k0") {
+                // every flag set of rANS Nx16 and of the arithmetic coder on ten representative targets
                 let all: Vec<u8> = (0..=255u8).filter(|f| f & 0x02 == 0).collect();
-                let asg = assignments(&all, &all, &[0, 1, 6, 9]);
+                let keep = ["core", "tags", "all", "RN", "QS", "BA", "AP", "RL", "FN", "TL"];
+                let asg: Vec<(Target, Enc)> = assignments(&all, &all, &[0, 1, 6, 9])
+                    .into_iter()
+                    .filter(|(t, _)| keep.contains(&t.name().as_str()))
+                    .collect();
                 ctx.harness(Config::new("encoders_all_flag_sets_k0", 0), |ch| {
+                    body_encoders(ch, &env, &asg, &[5, 1], &[None, Some(2)], DevSet::NONE)
+                });
+            }
+            if want("encoders_all_targets_k0") {
+                let asg = assignments(&q_nx16, &q_aac, &[1, 9]);
+                ctx.harness(Config::new("encoders_all_targets_k0", 0), |ch| {
                     body_encoders(ch, &env, &asg, &[5, 1, 3], &[None, Some(2)], DevSet::NONE)
                 });
             }
             if want("encoders_k1_content") {
-                let asg1 = assignments(&q_nx16, &q_aac, &[6]);
+                // content deviations (bases / qualities / unmapped read length) under the encoders that
+                // work on ordinary reads
+                let asg1 = assignments(&[0x20, 0x21, 0x24], &[0x20], &[6]);
                 ctx.harness(Config::new("encoders_k1_content", 1), |ch| {
                     body_encoders(ch, &env, &asg1, &[5], &[None], content)
                 });
